@@ -21,6 +21,9 @@ long sim_adapter_map_code (int c)
 int idna_to_ascii_lz (const char *input, char **output, int flags)
 {
     (void)flags;
+    /* real libidn converts from the locale's character set and asks the environment first (stringprep_locale_charset:
+       getenv("CHARSET"), then nl_langinfo): the read is reproduced so that the simulators see it; the value is not used */
+    (void)getenv ("CHARSET");
     return (int)sim_adapter_map_code (sim_convert (input, output, -1));
 }
 
